@@ -87,6 +87,7 @@ def make_case(seed: int, tier: str, prop: str, opts=None) -> Dict[str, Any]:
     if mc is not None and not evenly:
         ns = min(ns, nd * mc)
     return {"ns": ns, "nd": nd, "max_connects": mc, "evenly": evenly, "helper": helper,
+            "iterable": rng.choice(["list", "tuple", "generator"]),
             "mode": rng.choice(MODES), "rseed": rng.randrange(1 << 30),
             "attrs": rng.choice([["a"], ["a", ["b", "c"]]])}
 
@@ -108,7 +109,10 @@ def run_case(case, prop) -> Dict[str, Any]:
     exc = None
     try:
         if case["helper"] == "many_to_one":
-            mu.connect_many_to_one(w, src, dst[0], *attrs)
+            # src_set is documented as an Iterable: a list, a tuple or a one-shot iterator
+            how = case.get("iterable", "list")
+            it = src if how == "list" else (tuple(src) if how == "tuple" else (e for e in src))
+            mu.connect_many_to_one(w, it, dst[0], *attrs)
         else:
             kw = {"evenly": case["evenly"]}
             if case["max_connects"] is not None:
